@@ -150,7 +150,11 @@ def reencode_sig(c, cl):
            # F28: several measures evaluated together, the selections differ only by features that have an information-identical
            # twin (exactly tied under one of the measures)
            'differs_only_by_twins_under_several_measures': bool(diff) and c['meta']['measures'] == 'multi'
-           and all(f in (c.get('twins') or []) for f in diff)}
+           and all(f in (c.get('twins') or []) for f in diff),
+           # F29: several measures evaluated together, the selections differ only by features whose correlation ratio is 0 up to rounding
+           # (R_measure = sqrt(R2) is NaN or 1e-9 depending on the sign of the rounding residue; NaN excludes the feature under every measure)
+           'differs_only_by_features_with_zero_correlation_ratio': bool(diff) and c['meta']['measures'] == 'multi'
+           and all(f in (c.get('zero_m2') or []) for f in diff)}
     return bad, sig
 
 
